@@ -15,6 +15,16 @@ _cache = {}
 
 
 def run_scenarios(pid, seed, budget=45.0):
+    """returns (list of hit dicts, note).  The family is run with the caller's seed and, when that finds nothing, with seed 0 as
+    well (the seeded changes of /verif/seeded were all tried with seed 0: a different VERIF_SEED must not lose those)."""
+    hits, note = _run_scenarios(pid, seed, budget)
+    if not hits and seed != 0 and "does not build" not in note:
+        hits, note2 = _run_scenarios(pid, 0, budget)
+        note = note + "; second run with seed 0: " + note2
+    return hits, note
+
+
+def _run_scenarios(pid, seed, budget=45.0):
     """returns (list of hit dicts, note)"""
     key = (pid, seed)
     if key in _cache:
